@@ -136,8 +136,8 @@ def compile_text(text, limit=5.0, via_file=False):
             if isinstance(e, KeyboardInterrupt):
                 raise
             c = classify(e, e.__traceback__, allow_fnf=via_file)
-            if via_file and isinstance(e, OSError) and not isinstance(e, (IsADirectoryError, NotADirectoryError)) and "@include" in text:
-                c = "diag"        # the operating system's answer about an include target (missing, a directory, unreadable)
+            # (whatever the operating system says about an include target - missing, a directory, a name too long, unreadable -
+            # arrives as FileNotFoundError; another OSError is an escaped internal error)
             return ("diag", type(e).__name__) if c == "diag" else ("internal", c)
         finally:
             if d:
@@ -295,7 +295,9 @@ def include_cases(rep):
                  "self.bard": ":: Start\n@include self.bard\n",
                  "broken_child.bard": ":: Start\n@include child.bard\n", "child.bard": "@if x:\n",
                  "empty_inc.bard": "@include \n:: Start\nx\n", "dir_inc.bard": "@include .\n:: Start\nx\n",
-                 "below_file.bard": "@include child.bard/x.bard\n:: Start\nx\n", "updir.bard": "@include ..\n:: Start\nx\n"}
+                 "below_file.bard": "@include child.bard/x.bard\n:: Start\nx\n", "updir.bard": "@include ..\n:: Start\nx\n",
+                 "longname.bard": "@include " + "x" * 300 + ".bard\n:: Start\nx\n", "longdir.bard": "@include " + "d/" * 3000 + "x.bard\n:: Start\nx\n",
+                 "commented.bard": "@include child2.bard // the chapter\n:: Start\nx\n", "child2.bard": ":: C2\ny\n"}
         # a (non-cyclic) chain of includes deeper than the interpreter's recursion limit
         for i in range(1150):
             files[f"deep{i}.bard"] = (f"@include deep{i + 1}.bard\n" if i < 1149 else "") + f":: D{i}\nx\n"
@@ -312,7 +314,7 @@ def include_cases(rep):
                 rep.violations.append({"cls": None, "family": "c11-include", "what": f"compile_file({k}) does not terminate", "files": {a: b for a, b in files.items() if not a.startswith("deep")}})
             except BaseException as e:  # noqa
                 c = classify(e, e.__traceback__, allow_fnf=True)
-                if c != "diag" and (not isinstance(e, OSError) or isinstance(e, (IsADirectoryError, NotADirectoryError))):
+                if c != "diag":
                     rep.violations.append({"cls": None, "family": "c11-include", "what": f"compile_file({k}): {c}", "files": {a: b for a, b in files.items() if not a.startswith("deep")}})
     finally:
         shutil.rmtree(d, ignore_errors=True)
